@@ -11,3 +11,4 @@ def run(rep, W, ctx):
     H.c15_bound(rep, W)
     H.c15_typed(rep, W)
     H.c15_nopanic(rep, W)
+    H.route_params_plain(rep, W)
